@@ -22,6 +22,8 @@ pub open spec fn cfun(c: v1::Constraint) -> v1::Function { match c.function { So
 ''')
     asm.file('spec/logenc_spec.rs')
     asm.file('spec/c12_spec.rs')
+    for sp in ('spec/merge_spec.rs', 'spec/kmerge_spec.rs', 'spec/padd_spec.rs'):
+        asm.file(sp)      # id-membership lemmas of quadratic / polynomial id sets
     asm.file('spec/validate_spec.rs')
     # ---- part B: typed layer ----
     asm.raw(common.ZERO_TRAIT)
@@ -38,9 +40,7 @@ pub open spec fn dv_bound_ok(v: v1::DecisionVariable) -> bool { inv(dv_lower(v),
     asm.raw('} // mod lib\npub mod units {\n' + common.UNITS_USES + 'broadcast use super::lib::ax_zero_f64, super::lib::lemma_lin_ids_mem_b, super::lib::lemma_dv_ids_mem_b;\n')
     asm.raw(fn_stubs.ZERO + va.USED_STUBS, 'assumed callee contracts')
     asm.stubs.append(dict(unit='Function::zero', proved_in='C02'))
-    asm.stubs.append(dict(unit='Quadratic::used_decision_variable_ids', proved_in=''))
-    asm.stubs.append(dict(unit='Polynomial::used_decision_variable_ids', proved_in=''))
-    for u in (ev.instance_objective(), ev.constraint_function(), va.linear_used_ids(), va.function_used_ids(), va.defined_ids(), va.used_decision_variable_ids(),
+    for u in (ev.instance_objective(), ev.constraint_function(), va.linear_used_ids(), va.quadratic_used_ids(), va.polynomial_used_ids(), va.function_used_ids(), va.defined_ids(), va.used_decision_variable_ids(),
               va.validate_decision_variable_ids(), va.validate_constraint_ids(), va.validate(),
               va.p_objective(), va.p_used_ids(), va.p_validate_ids(), va.p_validate_constraint_ids(), va.p_validate()):
         asm.unit(u)
